@@ -31,7 +31,7 @@ RACE_ACTIONS = ["file", "dir", "symlink_victim", "symlink_dangling", "rm_parent"
 FILE_STATES = ["new", "new_fresh", "new_rel", "new_dotdot", "via_linkdir", "tilde", "existing", "directory", "missing_parent", "ro_parent", "dangling",
                "link2file", "trailing_slash", "empty"]
 IO_FAULTS = ["ENOSPC", "EIO_write", "EIO_close", "EMFILE_open", "EACCES_open", "EPIPE_stdout", "EIO_stdout",
-             "EPIPE_flush", "interrupt"]
+             "EPIPE_flush", "interrupt", "crash"]
 
 
 def _words():
@@ -334,16 +334,16 @@ def _finish(prop, seed, batch, req, argv, invalid, rng):
     elif batch == "io":
         f = rng.choice(IO_FAULTS)
         if req.get("file_state") is None and f in ("ENOSPC", "EIO_write", "EIO_close", "EMFILE_open", "EACCES_open"):
-            f = rng.choice(["EPIPE_stdout", "EPIPE_stdout", "EIO_stdout", "EPIPE_flush", "interrupt"])
+            f = rng.choice(["EPIPE_stdout", "EPIPE_stdout", "EIO_stdout", "EPIPE_flush", "interrupt", "crash"])
         if req.get("file_state") is not None and f in ("EPIPE_stdout", "EIO_stdout", "EPIPE_flush"):
-            f = rng.choice(["ENOSPC", "EIO_write", "EIO_close", "EMFILE_open", "EACCES_open", "interrupt"])
+            f = rng.choice(["ENOSPC", "EIO_write", "EIO_close", "EMFILE_open", "EACCES_open", "interrupt", "crash", "crash"])
         ent = {"kind": "io", "fault": f}
         if f == "ENOSPC":
             ent["free"] = rng.choice([0, 1, 100, 1000, 5000])
         if f in ("EPIPE_stdout", "EIO_stdout"):
             ent["nth"] = rng.choice([0, 1])
-        if f == "interrupt":
-            ent["gap"] = rng.randrange(0, 8)
+        if f in ("interrupt", "crash"):
+            ent["gap"] = rng.randrange(0, 9)
         faults.append(ent)
     return {"property": prop, "seed": seed, "config": {"batch": batch}, "req": req, "argv": argv,
             "expected_invalid": invalid, "faults": faults, "device_key": "dev-%d" % seed}
@@ -472,6 +472,9 @@ class _Injector:
                 if ft == "interrupt" and f.get("gap") == g:
                     self.fired.append({"kind": "interrupt", "gap": g, "before": name})
                     raise KeyboardInterrupt()
+                if ft == "crash" and f.get("gap") == g and getattr(self, "crash_hook", None) is not None:
+                    self.fired.append({"kind": "crash", "gap": g, "before": name})
+                    self.crash_hook()
                 if ft == "EIO_write" and name == "write" and n == 0:
                     self.fired.append({"kind": "io", "fault": ft, "before": name})
                     raise OSError(errno.EIO, "Input/output error (simulated)", str(path))
@@ -623,28 +626,80 @@ def _run_child(plan):
     vfs.install()
     device.install(pin_clock=True)
     try:
-        status, out, err, exc = run_cli(plan["argv"], vfs, inj, device)
-        enospc_hit = any(c[0] == "write" and isinstance(c[2], int) for c in vfs.log) and vfs.free == 0 and \
-            any(f["kind"] == "io" and f["fault"] == "ENOSPC" for f in plan["faults"])
-        if enospc_hit and status != 0:
-            inj.fired.append({"kind": "io", "fault": "ENOSPC", "before": "write"})
-        vfs.on_call = None
-        f1 = vfs.snapshot()
-        # files the CLI created / what it did to others
-        new_files = {p: v[3] for p, v in f1.items() if v[0] == "file" and v[2] == "cli"}
-        new_other = [p for p, v in f1.items() if v[0] != "file" and v[2] == "cli"]
-        clobbered = list(vfs.violations)
-        io_fault = any(x["kind"] in ("io", "interrupt") for x in inj.fired)
-        served_text = None
-        if status == 0:
-            if target is not None:
+        crash_plan = any(f["kind"] == "io" and f["fault"] == "crash" for f in plan["faults"])
+
+        def cli_phase(on_crash=None):
+            inj.crash_hook = on_crash
+            status_, out_, err_, exc_ = run_cli(plan["argv"], vfs, inj, device)
+            return collect(status_, out_, err_, exc_, False)
+
+        def collect(status_, out_, err_, exc_, crashed):
+            enospc_hit = any(c[0] == "write" and isinstance(c[2], int) for c in vfs.log) and vfs.free == 0 and \
+                any(f["kind"] == "io" and f["fault"] == "ENOSPC" for f in plan["faults"])
+            if enospc_hit and status_ != 0:
+                inj.fired.append({"kind": "io", "fault": "ENOSPC", "before": "write"})
+            vfs.on_call = None
+            f1_ = vfs.snapshot()
+            served_ = None
+            if status_ == 0:
+                if target is not None:
+                    try:
+                        d, name, node, _ = vfs._walk(target, follow=True)
+                        served_ = node.data.decode("utf-8") if node is not None and node.kind == "file" else None
+                    except OSError:
+                        served_ = None
+                else:
+                    served_ = out_
+            return {"status": status_, "out": out_, "err": err_, "exc": exc_, "crashed": crashed,
+                    "new_files": {p_: v[3].hex() for p_, v in f1_.items() if v[0] == "file" and v[2] == "cli"},
+                    "new_other": [p_ for p_, v in f1_.items() if v[0] != "file" and v[2] == "cli"],
+                    "clobbered": list(vfs.violations), "fired": inj.fired, "gaps": inj.gaps_seen, "log": vfs.log,
+                    "served_text": served_, "n_requests": len(device.requests)}
+
+        if crash_plan:
+            # the process is KILLED at boundary g: nothing after it runs, not even finally-blocks. The CLI therefore
+            # runs in a forked grandchild that ships the file system / stream state to us and _exit()s at that point.
+            r_, w_ = os.pipe()
+            pid = os.fork()
+            if pid == 0:
                 try:
-                    d, name, node, _ = vfs._walk(target, follow=True)
-                    served_text = node.data.decode("utf-8") if node is not None and node.kind == "file" else None
-                except OSError:
-                    served_text = None
-            else:
-                served_text = out
+                    os.close(r_)
+
+                    def ship(doc):
+                        data = core.canon_json(doc).encode()
+                        off = 0
+                        while off < len(data):
+                            off += os.write(w_, data[off:off + 65536])
+
+                    def on_crash():
+                        ship(collect(137, sys.stdout.getvalue() if hasattr(sys.stdout, "getvalue") else "",
+                                     sys.stderr.getvalue() if hasattr(sys.stderr, "getvalue") else "", "killed", True))
+                        os._exit(137)
+                    ship(cli_phase(on_crash))
+                finally:
+                    os._exit(0)
+            os.close(w_)
+            buf = b""
+            while True:
+                b_ = os.read(r_, 1 << 16)
+                if not b_:
+                    break
+                buf += b_
+            os.close(r_)
+            os.waitpid(pid, 0)
+            ph = json.loads(buf.decode()) if buf else None
+            if ph is None:
+                raise core.HarnessError("crash-mode grandchild returned nothing")
+        else:
+            ph = cli_phase()
+        status, out, err, exc = ph["status"], ph["out"], ph["err"], ph["exc"]
+        inj.fired, inj.gaps_seen, vfs.log, vfs.violations = ph["fired"], ph["gaps"], ph["log"], ph["clobbered"]
+        n_requests = ph["n_requests"]
+        new_files = {p_: bytes.fromhex(h_) for p_, h_ in ph["new_files"].items()}
+        new_other = ph["new_other"]
+        clobbered = ph["clobbered"]
+        io_fault = any(x["kind"] in ("io", "interrupt", "crash") for x in inj.fired)
+        served_text = ph["served_text"]
         # ---- API twin (only when something has to be compared)
         twin = None
         twin_exc = None
@@ -769,8 +824,8 @@ def _run_child(plan):
     for x in inj.fired:
         if x["kind"] == "race":
             key = "race|%s|before:%s|%s" % (x["action"], x["before"], "effective" if x["effective"] else "noop")
-        elif x["kind"] == "interrupt":
-            key = "interrupt|before:%s" % x["before"]
+        elif x["kind"] in ("interrupt", "crash"):
+            key = "%s|before:%s" % (x["kind"], x["before"])
         else:
             key = "io|%s" % x["fault"]
         cells[key] = cells.get(key, 0) + 1
@@ -780,7 +835,7 @@ def _run_child(plan):
         "paranoia_served": int(bool(req["paranoia"] and status == 0)),
         "vfs_calls": len(vfs.log), "boundaries": len(gaps), "fault_cells": cells,
         "expected_invalid_components": {k.split(":")[0]: 1 for k in plan["expected_invalid"]},
-        "twin_computed": int(twin is not None), "entropy_requests": len(device.requests),
+        "twin_computed": int(twin is not None), "entropy_requests": n_requests,
         "gap_sequence": ["/".join(gaps)],
         "invalid_but_served": int(bool(plan["expected_invalid"]) and status == 0),
     }
@@ -841,7 +896,7 @@ class CliSim(Simulator):
         #  alive if the validator's look-ups and the creation of the file went through it)
         if not calls or not any(c in calls for c in ("open", "rename", "link")) or not r["facts"]["new_files"]:
             raise core.HarnessError("VFS seam dead: the CLI's file did not appear in the simulated file system (%r)" % calls)
-        if r["stats"]["entropy_requests"] < 2:
+        if r["stats"]["entropy_requests"] < 1:
             raise core.HarnessError("entropy device seam dead for `new`")
         if r["facts"]["status"] != 0:
             raise core.HarnessError("probe run failed with status %r" % r["facts"]["status"])
@@ -1003,7 +1058,8 @@ class CliSim(Simulator):
                 "executed as module __main__ (runpy) in-process on the in-memory VFS with a seeded entropy device; batches: argv (fault-free), race (an "
                 "environment actor creates a file/dir/symlink at the target or removes/chmods its parent at VFS call "
                 "boundary g), io (ENOSPC after k bytes, EIO on write/close, EMFILE/EACCES on open, EPIPE/EIO on stdout write, "
-                "EPIPE on explicit flush, KeyboardInterrupt at boundary g). ")
+                "EPIPE on explicit flush, KeyboardInterrupt at boundary g, process KILLED at boundary g - nothing "
+                "after it runs, only the file system state survives). ")
         if prop == "C20":
             return base + ("Oracle: refused (status!=0, no wallet data on stdout, no new file) OR served (status 0, output "
                            "== json.dumps(API result, indent=4) for the same secret/network/account/interval, library-filtered "
@@ -1039,10 +1095,12 @@ class CliSim(Simulator):
             if not any(k.startswith("race|file|before:open") for k in cells):
                 out.append("no file appeared between the validator and open()")
             for f in IO_FAULTS:
-                if f not in ("interrupt", "EPIPE_flush") and not cells.get("io|" + f):
+                if f not in ("interrupt", "crash", "EPIPE_flush") and not cells.get("io|" + f):
                     out.append("I/O fault %s never fired" % f)
             if not any(k.startswith("interrupt|") for k in cells):
                 out.append("interrupt never delivered")
+            if not any(k.startswith("crash|") for k in cells):
+                out.append("crash never delivered")
         else:
             if st.get("paranoia_served", 0) < 10:
                 out.append("fewer than 10 served --paranoia runs")
